@@ -2,13 +2,19 @@
 Driver glue for M-Repr: S-expression ⇄ `Repr.Op` / results.  Not part of the proved core.
 Values never cross the protocol (the driver instantiates `V := Unit`): per line the driver
 answers the results of the operations (for requests: how many factory invocations they caused),
-the cached keys of every object, and whether the state is inside the structural domain `Dom` of the
-theorems (`domCheck`).
+the cached keys of every object of both layers, whether the state is inside the structural domain `Dom` of
+the theorems (`domCheck`), and the verdict on the content cells the adaptor saw change (`cellVerdict`).
+
+A line is `(seq item …)`; an item is a primitive of `Repr.Op`, a public call
+`(call obj meth eff|same [(delta dx dy) | (base b)])`, `(hold obj)` / `(release obj)` / `(disable obj)` /
+`(enable obj)`, any of these wrapped as `(l1 item)` for the second layer, or `(obs (obj cell) …)` - the cells whose
+fingerprint changed on the real objects during the line.
 -/
 import DefconModel.Util.SExp
 import DefconModel.Repr
 import DefconModel.Gen.ReprTables
 import DefconModel.Lemmas.ReprDom
+import DefconModel.ReprLayers
 
 namespace DefconModel
 namespace Repr
@@ -51,6 +57,7 @@ def parseOp : SExp → Option Op
   | .list [.atom "delGlyph", n] => do some (.delGlyph (← asStr? n))
   | .list [.atom "rename", g, n] => do some (.rename (← asStr? g) (← asStr? n))
   | .list [.atom "gset", m] => do some (.gset (← asStr? m))
+  | .list [.atom "touch", o, m] => do some (.touch (← parseObj o) (← asStr? m))
   | _ => none
 
 def encObj : Obj → SExp
@@ -76,23 +83,113 @@ def encDigest (w : World Unit) : SExp :=
 
 def unitParams : Params Unit := { f := fun _ _ _ _ => (), patch := fun _ v _ _ => v }
 
-def driverStep (w : World Unit) (line : SExp) : World Unit × SExp :=
+inductive Item where
+  | prim (op : Op)
+  | hop (h : HOp)
+  | call (c : Call)
+deriving Inhabited
+
+def parseArg : SExp → Option CallArg
+  | .list [.atom "delta", dx, dy] => do some (.delta (← asInt? dx) (← asInt? dy))
+  | .list [.atom "base", b] => do some (.base (← optStr? b))
+  | _ => none
+
+def parseEff : SExp → Option Bool
+  | .atom "eff" => some true
+  | .atom "same" => some false
+  | _ => none
+
+def parseItem : SExp → Option Item
+  | .list [.atom "call", o, m, e] => do
+    some (.call { recv := (← parseObj o), meth := (← asStr? m), eff := (← parseEff e) })
+  | .list [.atom "call", o, m, e, a] => do
+    some (.call { recv := (← parseObj o), meth := (← asStr? m), eff := (← parseEff e), arg := (← parseArg a) })
+  | .list [.atom "hold", o] => do some (.hop (.hold (← parseObj o)))
+  | .list [.atom "release", o] => do some (.hop (.release (← parseObj o)))
+  | .list [.atom "disable", o] => do some (.hop (.disable (← parseObj o)))
+  | .list [.atom "enable", o] => do some (.hop (.enable (← parseObj o)))
+  | x => do some (.prim (← parseOp x))
+
+def parseLItem : SExp → Option (Lay × Item)
+  | .list [.atom "l1", x] => do some (.b, (← parseItem x))
+  | x => do some (.a, (← parseItem x))
+
+def parseCellRef : SExp → Option (Lay × Obj × Cell)
+  | .list [.list [.atom "l1", o], c] => do some (.b, (← parseObj o), (← Cell.ofName? (← asStr? c)))
+  | .list [o, c] => do some (.a, (← parseObj o), (← Cell.ofName? (← asStr? c)))
+  | _ => none
+
+def encLObj (l : Lay) (o : Obj) : SExp :=
+  match l with
+  | .a => encObj o
+  | .b => .list [.atom "l1", encObj o]
+
+def encDigestL (l : Lay) (w : World Unit) : List SExp :=
+  (digest w).map fun p => .list [encLObj l p.1, tagged "set" (p.2.map encKey)]
+
+def encDigestF (f : Font Unit) : SExp :=
+  tagged "set" (encDigestL .a f.l0.w ++ encDigestL .b f.l1.w)
+
+def encCellRef (l : Lay) (x : Obj × Cell) : SExp := .list [encLObj l x.1, .str x.2.name]
+
+/-- the first error among the results of one item, else `ok` / the only result -/
+def sumRes (rs : List Res) : Res :=
+  match rs.find? (fun r => match r with | .err _ => true | _ => false) with
+  | some e => e
+  | none =>
+    match rs with
+    | [r] => r
+    | _ => .ok
+
+def runItem (f : Font Unit) (li : Lay × Item) : Font Unit × Res :=
+  match li.2 with
+  | .prim op => fstep unitParams Gen.ReprTables.tables f li.1 (.base op)
+  | .hop h => fstep unitParams Gen.ReprTables.tables f li.1 h
+  | .call c =>
+    let r := fcall unitParams Gen.ReprTables.tables f li.1 c
+    (r.1, sumRes r.2)
+
+def mustOf (li : Lay × Item) : List (Lay × Obj × Cell) :=
+  match li.2 with
+  | .call c => (mustCells c).map fun x => (li.1, x.1, x.2)
+  | _ => []
+
+def splitObs (xs : List SExp) : List SExp × Option (List SExp) :=
+  match xs.reverse with
+  | .list (.atom "obs" :: cs) :: r => (r.reverse, some cs)
+  | _ => (xs, none)
+
+def driverStepF (f : Font Unit) (line : SExp) : Font Unit × SExp :=
   match line with
-  | .list [.atom "skip"] => (w, .atom "skip")
-  | .list (.atom "seq" :: xs) =>
-    match xs.mapM parseOp with
-    | none => (w, .atom "bad-op")
-    | some ops =>
-      let r := ops.foldl (fun (acc : World Unit × List SExp) op =>
-        let s := step unitParams Gen.ReprTables.tables acc.1 op
-        (s.1, acc.2 ++ [encRes s.2])) (w, [])
-      (r.1, .list [.list r.2, encDigest r.1, ofBool (domCheck r.1)])
+  | .list [.atom "skip"] => (f, .atom "skip")
+  | .list (.atom "seq" :: xs0) =>
+    let (xs, obs0) := splitObs xs0
+    match xs.mapM parseLItem, (obs0.getD []).mapM parseCellRef with
+    | some items, some obs =>
+      let r := items.foldl (fun (acc : Font Unit × List SExp) it =>
+        let s := runItem acc.1 it
+        (s.1, acc.2 ++ [encRes s.2])) (f, [])
+      let f' := r.1
+      let must := items.flatMap mustOf
+      let verdict (l : Lay) : List SExp × List SExp :=
+        let ch := changedCells (f.get l).w (f'.get l).w
+        let ob := (obs.filter fun x => x.1 = l).map fun x => x.2
+        let mu := (must.filter fun x => x.1 = l).map fun x => x.2
+        let v := cellVerdict ch ob mu
+        (v.1.map (encCellRef l), v.2.map (encCellRef l))
+      let va := verdict .a
+      let vb := verdict .b
+      let cells : SExp := match obs0 with
+        | none => .atom "unobserved"
+        | some _ => .list [.atom "cells", .list (va.1 ++ vb.1), .list (va.2 ++ vb.2)]
+      (f', .list [.list r.2, encDigestF f', ofBool (domCheck f'.l0.w && domCheck f'.l1.w), cells])
+    | _, _ => (f, .atom "bad-op")
   | _ =>
-    match parseOp line with
-    | none => (w, .atom "bad-op")
-    | some op =>
-      let s := step unitParams Gen.ReprTables.tables w op
-      (s.1, .list [.list [encRes s.2], encDigest s.1, ofBool (domCheck s.1)])
+    match parseLItem line with
+    | none => (f, .atom "bad-op")
+    | some it =>
+      let s := runItem f it
+      (s.1, .list [.list [encRes s.2], encDigestF s.1, ofBool (domCheck s.1.l0.w && domCheck s.1.l1.w), .atom "unobserved"])
 
 end Repr
 end DefconModel
